@@ -18,6 +18,10 @@ pub fn ext_ident(s: &str) -> Result<(&str, usize), &'static str> {
 
 pub fn ext_raw(s: &str) -> Result<(Raw, usize), &'static str> {
     hook_yield("ext_raw");
+    if s.starts_with("boom") {
+        // a user function that panics: the caller catches the unwind; later parses on this thread must not notice
+        panic!("ext_raw does not like this text");
+    }
     match s.find(|c| c == '<' || c == '!' || c == ';') {
         Some(n) if s[n..].starts_with(';') => Ok((Raw { text: s[..n].to_string() }, n + 1)),
         Some(n) => Ok((Raw { text: s[..n].to_string() }, n)),
